@@ -520,7 +520,7 @@ def enc_block(w, rng, block, opt, info=None):
         lens = tables[t]
         start = opt.get('start_len', {}).get(t, rng.randint(1, 20))
         w.put(5, start)
-        cur = start if 1 <= start <= 20 else lens[0]
+        cur = start        # an out-of-range start is walked back into range by the deltas
         exc = opt.get('excursion')       # (table, symbol, kind)
         for s_i, target in enumerate(lens):
             if exc and exc[0] == t and exc[1] == s_i:
@@ -692,6 +692,9 @@ def gen_cases(rng, rnums, count):
                            sizes=[120, 400], plain_fn=lambda r, n: r.randbytes(n))
             else:
                 one_stream('g-defect-%s-%d' % (name, rep), 'err', nblocks=1, bopt=f)
+    for size in (1, 2, 3, 4):         # origPtr = n where the decode would not even change
+        one_stream('g-defect-origptr-n-size%d' % size, 'err', nblocks=1, sizes=[size],
+                   bopt=lambda n: {'origPtr': n}, plain_fn=lambda r, n: r.randbytes(n))
     one_stream('g-defect-eos', 'err', sopt={'eos': 0x177245385091})
     one_stream('g-defect-stream-crc', 'err', nblocks=2, sopt={'stream_crc': 1})
     # capacity: level 1 holds 100000 bytes after RLE1
@@ -1011,8 +1014,10 @@ def main():
     # ------------------------------------------------------------- summary
     nbad = 0
     for k, st in stats.items():
-        for label, why in st.documented:
+        for label, why in st.documented[:8]:
             print('documented-strictness [%s] %s: Spec %s, libbz2 accepts' % (k, label, why))
+        if len(st.documented) > 8:
+            print('documented-strictness [%s] ... and %d more' % (k, len(st.documented) - 8))
         for label, what, h in st.bad:
             nbad += 1
             print('DISAGREEMENT [%s] %s: %s%s' % (k, label, what, ('\n    hex ' + h) if h else ''))
